@@ -1,10 +1,10 @@
 SPECIFICATION Spec
 CONSTANTS
-  MaxFrames = 6
+  MaxFrames = 8
   MaxThreads = 1
-  MaxOps = 4
-  EmitOps = {"checkpoint","cut_points","status","auto","schedule"}
-  PathOps = {"message","checkpoint","auto","schedule","run_ended"}
+  MaxOps = 6
+  EmitOps = {"compile"}
+  PathOps = {"message","run_ended","checkpoint","side_effects"}
 VIEW View
 INVARIANTS Emit CutPointsAreStrideMessages AutoIdempotent ReadOnlyQuiet LineageSound BundleSound
 CHECK_DEADLOCK FALSE
